@@ -777,6 +777,9 @@ func checkPopulate(c *Ctx, rootID constant.Value) {
 	dirLC, _ := repoConst(p, "pkg/fuse", "dirLinkCount")
 	fileLC, _ := repoConst(p, "pkg/fuse", "fileLinkCount")
 	okDisc := false
+	// an index loop over the queue binds the same elements as the range loop
+	describeIndexAsRange = true
+	defer func() { describeIndexAsRange = false }()
 	ast.Inspect(an.Decl.Body, func(n ast.Node) bool {
 		ifs, ok := n.(*ast.IfStmt)
 		if !ok || ifs.Else == nil {
